@@ -93,6 +93,7 @@ Definition ci_caps (c : citem) := match c with CI _ _ _ l _ => l end.
 Definition ci_sq (c : citem) := match c with CI _ _ _ _ q => q end.
 Definition ci_call (c : citem) : bool := match ci_kind c with KPlain _ => false | _ => true end.
 Definition ci_setq (c : citem) (q : qk) : citem := match c with CI u i k l _ => CI u i k l (Some q) end.
+Definition ci_unq (c : citem) : citem := match c with CI u i k l _ => CI u i k l None end.
 
 Inductive msg := MNum (v : N) | MCause (c : cause).
 
